@@ -155,7 +155,7 @@ def generate(tier, seed):
     for reg in regions:
         for shp in shapes:
             for pix in (False, True):
-                for extra, mesh in ((None, True), (None, False), ([3.5], True), ((1.0, -2.0), True), ([1.0], False)):
+                for extra, mesh in ((None, True), (None, False), ([3.5], True), ((1.0, -2.0), True), ([1.0], False), (0, True), (0.0, True), ([0.0, 2.0], True)):
                     g += 1
                     if tier == "quick" and g % 3:
                         continue
@@ -192,7 +192,8 @@ def generate(tier, seed):
         cases.append(core.guarded(lambda: s2s_case(vd, reg, shp, bool(i % 2), (i // 2) % 2, "shape_to_spacing-random"), {"fn": "s2s_case"}, "s2s_case"))
     # 7. profiles
     for p1, p2 in [((1.0, 10.0), (1.0, 20.0)), ((1.0, 5.0), (5.0, 5.0)), ((0.0, 0.0), (3.0, 4.0)), ((2.5, -1.0), (-4.0, 7.5)),
-                   ((1e5, 1e5), (1e5 + 3.0, 1e5 - 4.0)), ((1.0, 1.0), (-2.0, -3.0))]:
+                   ((1e5, 1e5), (1e5 + 3.0, 1e5 - 4.0)), ((1.0, 1.0), (-2.0, -3.0)),
+                   ((2.0, 3.0), (2.0, 3.0)), ((0.0, 0.0), (0.0, 0.0)), ((-7.5, 1e4), (-7.5, 1e4))]:   # incl. coincident end points
         for size in (2, 3, 5, 11):
             cases.append(core.guarded(lambda: profile_case(vd, p1, p2, size, "profile"), {"fn": "profile_case"}, "profile_case"))
     for i in range(20 if tier == "quick" else 200):
